@@ -26,14 +26,28 @@ GenCaps == {1, 3, 6}
 
 Depth == IF "VERIF_DEPTH" \in DOMAIN IOEnv THEN atoi(IOEnv.VERIF_DEPTH) ELSE 6
 
-GInit == Init /\ hist = <<>>
+\* Focused generators.  `gone` is a generator-only abstraction of the past (files that were deleted or evicted
+\* at least once): with it in the VIEW, edge cover reaches states such as "F2 and F7 present after F4 was
+\* deleted" through histories that really contain the deletion -- what reference-count slips need.
+VARIABLE gone
+Mode == IF "VERIF_NODEMODE" \in DOMAIN IOEnv THEN IOEnv.VERIF_NODEMODE ELSE "all"
+
+NextDel == \/ \E f \in File : Upload(f, FALSE) \/ Download(f, "all") \/ Delete(f) \/ Read(f)
+           \/ \E cap \in {1, 6} : Collect(cap)
+NextPin == \/ \E f \in File, p \in BOOLEAN : Upload(f, p)
+           \/ \E f \in File : Download(f, "all") \/ Delete(f)
+           \/ \E f \in File, via \in {"api", "svc"} : Pin(f, via) \/ Unpin(f, via)
+
+GInit == Init /\ hist = <<>> /\ gone = {}
 GNext == /\ Len(hist) < Depth
-         /\ Next
+         /\ CASE Mode = "del" -> NextDel [] Mode = "pin" -> NextPin [] OTHER -> Next
          /\ hist' = Append(hist, last')
-GSpec == GInit /\ [][GNext]_<<vars, hist>>
+         /\ gone' = gone \cup (known \ known')
+GSpec == GInit /\ [][GNext]_<<vars, hist, gone>>
 
 Scn == [par |-> [files |-> SetToSeq(File)], ops |-> hist]
-EdgeView == <<data, up, pin, acct, held, known, rootpin, bits, lru, last>>
+EdgeView == <<data, up, pin, acct, held, known, rootpin, bits, lru, last, gone>>
+FocusView == <<data, up, pin, acct, known, rootpin, last, gone>>
 EmitAll  == hist # <<>> => PrintT(<<"SCN", ToJson(Scn)>>)
 EmitFull == Len(hist) = Depth => PrintT(<<"SCN", ToJson(Scn)>>)
 =============================================================================
